@@ -57,6 +57,30 @@ CLAIMS = {
          "InnerPrefixes.Bytes / LeafPrefixes.Bytes; hence in filter mode nothing proportional to key length is stored. Does not decide the "
          "numeric bound of 8 bytes/key + 256."),
    design="4/C17"),
+
+ "C05": dict(
+   technique="determinism lint over SSA (map-range/sort discipline) + per-version definite-reassignment dataflow on the semver-specialised CFG",
+   text=("Decides necessary conditions of byte-stable Marshal (no map-order leak: collect-then-sort with a comparator that reads the map key; "
+         "no random/clock/goroutine/%p; no map in wire structs), the no-residue clause (for each of the compatible versions every "
+         "non-configuration field of SlimTrie is stored on every success path of the version-specialised Unmarshal before any load that could "
+         "observe its old value, derived fields computed after the last message write; Reset likewise), proto.Size = len(Marshal()) by method "
+         "set, and that the stamped version is loadable without fix-up. Does not decide that a loaded trie answers identically."),
+   design="4/C05"),
+ "C06": dict(
+   technique="finite version-table evaluation: semver predicates folded on constants, per-version CFG specialisation and path events",
+   text=("Decides the dispatch for every version in the compatible list: the version-specialised Unmarshal has success paths and each performs "
+         "exactly the loader family of that layout (three sections in order + rebuild + store + init / one Slim section + prefix re-encoding + leaf "
+         "array reconstruction + init / one Slim section + init), fix-up functions identified by the wire fields they write; legacy arrays are "
+         "ranked over their own (Bitmaps, Offsets). Does not decide the conversions' arithmetic on arbitrary old streams."),
+   design="4/C06"),
+ "C07": dict(
+   technique="finite version-table evaluation (blang/semver on constants) + CFG reachability with cut error edges",
+   text=("Decides, for ALL version strings and ALL cut points: the compatible set is a finite list of exact released versions (spec shape + probe "
+         "set incl. pre-releases/successors/malformed), the version tested is the header's, incompatible versions have no success path, parse "
+         "nothing and return an error derived from ErrIncompatible; after every stream read only an error return is reachable unless the err==nil "
+         "edge of that read's nil test is taken (so every strict prefix is rejected, given pbcmpl's exact-size reads); a fresh message is stored "
+         "first and error paths leave it untouched. Panics inside protobuf on corrupted (not truncated) bodies are not covered."),
+   design="4/C07"),
 }
 
 NA = {
